@@ -73,7 +73,10 @@ func validateEndBuf(src []byte, cursor int64) error {
 			cursor++
 			continue
 		case nul:
-			return nil
+			// only the sentinel appended by the caller ends the input
+			if cursor == int64(len(src))-1 {
+				return nil
+			}
 		}
 		return errors.ErrSyntax(
 			fmt.Sprintf("invalid character '%c' after top-level value", src[cursor]),
